@@ -470,7 +470,10 @@ def _evaluate(spec, defs, streams, rep):
                 for u in m.get("uses", []):
                     if u not in used:
                         used.append(u)
-            body = "".join(f"Definition {u} : {spec['def_type']} := {defs[u]}.\n" for u in used if u in defs)
+            body = (st["requires"] + "\n") if st.get("requires") else ""   # a borrowed stream imports its own module last
+            pref = chunk[0][1].get("_pref", "") if chunk else ""
+            body += "".join(f"Definition {u[len(pref):] if pref and u.startswith(pref) else u} : {st.get('def_type', spec['def_type'])} := {defs[u]}.\n"
+                            for u in used if u in defs)
             body += f"Definition cases : list {st['type']} := [\n" + ";\n".join(g for g, _, _ in chunk) + "].\n"
             body += f"Eval vm_compute in map ({st['eval']}) cases.\n"
             shards.append(body)
@@ -493,8 +496,11 @@ def _evaluate(spec, defs, streams, rep):
 
 def _judge(spec, results, defs, rep, seed, n, counts, searching=False):
     """Turn verdict codes into KNOWN-FINDING / VIOLATION / broken-correspondence."""
-    classes = spec.get("classes", {})
+    by_kind = {st["kind"]: st for st in spec.get("streams", [])}
     for kind, items in results.items():
+        stq = by_kind.get(kind, {})
+        classes = stq.get("classes", spec.get("classes", {}))
+        what = stq.get("what_violation", spec.get("what_violation", "property fails"))
         for g, m, idx, v in items:
             counts[v] = counts.get(v, 0) + 1
             payload = {"property": spec["pid"], "bin": spec["bin"], "seed": seed, "n": n, "line_index": idx, "kind": kind,
@@ -504,13 +510,13 @@ def _judge(spec, results, defs, rep, seed, n, counts, searching=False):
                 continue
             if 100 <= v < 200:
                 cid = classes.get(v - 100, f"class-{v - 100}")
-                rep.known_or_violation(cid, payload, f"{spec.get('what_violation', 'property fails')} on {text}")
+                rep.known_or_violation(cid, payload, f"{what} on {text}")
             elif v == 2:
                 if not any(x[1].startswith("[theorem-gap]") for x in rep.violations):
                     rep.violation("theorem-gap", payload, f"[theorem-gap] implementation = model but the specification fails outside every known class on {text}")
             elif v == 4:
                 if sum(1 for x in rep.violations if x[1].startswith("[impl]")) < 3:
-                    rep.violation("impl", payload, f"[impl] {spec.get('what_violation', 'property fails')} on {text}")
+                    rep.violation("impl", payload, f"[impl] {what} on {text}")
             elif v == 3 or 500 <= v < 600:
                 if not searching:
                     rep.broken_obligation(f"correspondence {spec['pid']}/{kind}: implementation differs from the model on {text}")
@@ -523,10 +529,10 @@ def _run_bins(spec, sd, nn, wd, rep=None):
     ({bin, extra_args, n_factor}); cases of all of them are merged (line indices of
     the k-th extra binary are offset by k*1000000 so that replays stay unambiguous)."""
     defs, streams, names = {}, {}, None
-    todo = [(spec["bin"], spec.get("extra_args", []), 1.0)]
+    todo = [(spec["bin"], spec.get("extra_args", []), 1.0, "")]
     for eb in spec.get("extra_bins", []):
-        todo.append((eb["bin"], eb.get("extra_args", []), eb.get("n_factor", 1.0)))
-    for k, (b, xa, fac) in enumerate(todo):
+        todo.append((eb["bin"], eb.get("extra_args", []), eb.get("n_factor", 1.0), eb.get("kind_prefix", "")))
+    for k, (b, xa, fac, pref) in enumerate(todo):
         cf = os.path.join(wd, f"{b}.cases")
         if os.path.exists(cf):
             os.remove(cf)
@@ -537,10 +543,15 @@ def _run_bins(spec, sd, nn, wd, rep=None):
         if rc != 0 and rep is not None:
             rep.broken_obligation(f"harness {b} exited {rc}: {err[-400:]}")
         d, st, nm = _parse_case_file(cf)
-        defs.update(d)
+        # kind_prefix keeps the stream kinds AND the shared definitions of a borrowed harness apart
+        # from the spec's own (two harnesses may both call their schema "fam")
+        defs.update({pref + u: t for u, t in d.items()})
         names = names or nm
         for kd, v in st.items():
-            streams.setdefault(kd, []).extend((g, m, idx + k * 1000000) for g, m, idx in v)
+            for g, m, idx in v:
+                if pref and isinstance(m, dict):
+                    m = dict(m, uses=[pref + u for u in m.get("uses", [])], _pref=pref)
+                streams.setdefault(pref + kd, []).append((g, m, idx + k * 1000000))
     return defs, streams, names
 
 
